@@ -221,6 +221,7 @@ def run(ctx):
     finally:
         chk.ob = real_ob
     P = prog.require_func('snoopy_util_parser_strByteLength')
+    PROG[0] = prog
     for c in P.calls():
         if c.get('callee') in TEXT_TO_INT:
             h = common.holder(P, c)
@@ -604,85 +605,102 @@ def _first_char_is_quote_on_all_paths(P, store, base_id):
     return common.guarded_at(P, store, quote_edge, lambda e: common.modifies_var(e, base_id))
 
 
+def _digit_guarded(F, target_elem, expr_text, var_ids):
+    """forward dataflow in F: True when every path to target_elem crosses the true edge of isdigit(expr)
+    after the last modification of the variables expr is built from"""
+    def is_test(cond):
+        c = strip(cond)
+        neg = False
+        while c is not None and c.k == 'UnaryOperator' and c['op'] == '!':
+            neg = not neg
+            c = strip(c.ch[0])
+        if c is not None and c.k == 'BinaryOperator' and c['op'] in ('!=', '==') and any(strip(x).get('v') == 0 for x in c.ch):
+            other = [x for x in c.ch if strip(x).get('v') != 0]
+            if other:
+                if c['op'] == '==':
+                    neg = not neg
+                c = strip(other[0])
+        ct = common.ctype_test(c) if c is not None else None
+        if ct is not None and ct[0] == 'digit' and ct[1] is not None and render(ct[1]).strip('() ') == expr_text:
+            return True, neg
+        return False, False
+
+    def transfer(st, e):
+        if e.k == 'UnaryOperator' and e.get('op') in ('++', '--') and (decl_of(e.ch[0]) or {}).get('id') in var_ids:
+            return False
+        if e.k in ('BinaryOperator', 'CompoundAssignOperator') and (e.get('op') == '=' or e.k == 'CompoundAssignOperator') and \
+                strip(e.ch[0]).k == 'DeclRefExpr' and (decl_of(e.ch[0]) or {}).get('id') in var_ids:
+            return False
+        return st
+
+    def edge(st, blk, si):
+        if blk.cond is not None and len(blk.all_succs) == 2:
+            t, neg = is_test(blk.cond)
+            if t:
+                true_edge = 1 if neg else 0
+                return True if si == true_edge else st
+        return st
+    ins = C.forward_dataflow(F, False, transfer, lambda a, b: a and b, edge_transfer=edge)
+    for bid, st in ins.items():
+        if st is None:
+            continue
+        for e in F.blocks[bid].elems:
+            if e is target_elem or any(x is target_elem for x in e.walk()):
+                return st
+            st = transfer(st, e)
+    return False
+
+
+def _only_digit_stores(F, buf_id, skip_call, depth=0):
+    """every store into the buffer (a local array of F, or the object a pointer parameter of F points to) writes 0
+    or a character that has just passed isdigit(); a program function the buffer is handed to is held to the same"""
+    from engine.dataflow import PtrTaint
+    pt = PtrTaint(F, lambda n: False, {buf_id})
+    helpers = 0
+    for cl, i, a in pt.pointer_args():
+        if cl is skip_call or _const_param(cl, i):
+            continue
+        t = PROG[0].func(cl.get('callee'), F.tu) if cl.get('callee') and PROG[0] is not None else None
+        if t is None or depth >= 2 or i >= len(t.params):
+            return False, 'is a buffer also filled by another call'
+        okh, whyh = _only_digit_stores(t, t.params[i]['id'], None, depth + 1)
+        if not okh:
+            return False, 'is a buffer also filled by %s, where it %s' % (t.name, whyh)
+        helpers += 1
+    stores = pt.stores()
+    if not stores and not helpers:
+        return False, 'is a buffer nothing is stored into'
+    for st in stores:
+        if st.k != 'BinaryOperator' or st['op'] != '=':
+            return False, 'is modified by %s' % render(st)
+        r = strip(st.ch[1])
+        if r.get('v') == 0:
+            continue
+        vs = {n['ref']['id'] for n in r.walk() if n.k == 'DeclRefExpr' and n['ref']['kind'] in ('var', 'parm')}
+        if r.k not in ('UnaryOperator', 'ArraySubscriptExpr') or not _digit_guarded(F, st, render(r).strip('() '), vs):
+            return False, 'receives %s, which has not just passed isdigit()' % render(r)
+    return True, 'a buffer that only receives characters that passed isdigit(), and the terminator'
+
+
+PROG = [None]
+
+
 def digits_only_input(P, call):
     """the text handed to a strto*/ato* conversion starts with a decimal digit or is empty, on every path:
-    (a) a local buffer every store into which writes 0 or a character that has just passed isdigit(), or
+    (a) a local buffer every store into which - in this function or in a helper it is handed to - writes 0 or a
+    character that has just passed isdigit(), or
     (b) a string whose first character passed isdigit() / that passed the digits-only helper."""
     src = arg(call, 0)
     d = decl_of(src)
     if d is None:
         return False, 'is not a plain variable (%s)' % render(src)
-    DIGIT_TESTS = ('isdigit',)
-
-    def guarded(target_elem, expr_text, ptr_ids):
-        """forward dataflow: True when every path to target_elem crosses the true edge of isdigit(expr)
-        after the last modification of the pointer(s) expr is built from"""
-        def is_test(cond):
-            c = strip(cond)
-            neg = False
-            while c is not None and c.k == 'UnaryOperator' and c['op'] == '!':
-                neg = not neg
-                c = strip(c.ch[0])
-            if c is not None and c.k == 'BinaryOperator' and c['op'] in ('!=', '==') and any(strip(x).get('v') == 0 for x in c.ch):
-                other = [x for x in c.ch if strip(x).get('v') != 0]
-                if other:
-                    if c['op'] == '==':
-                        neg = not neg
-                    c = strip(other[0])
-            ct = common.ctype_test(c) if c is not None else None
-            if ct is not None and ct[0] == 'digit' and ct[1] is not None and render(ct[1]).strip('() ') == expr_text:
-                return True, neg
-            return False, False
-
-        def transfer(st, e):
-            if e.k == 'UnaryOperator' and e.get('op') in ('++', '--') and (decl_of(e.ch[0]) or {}).get('id') in ptr_ids:
-                return False
-            if e.k in ('BinaryOperator', 'CompoundAssignOperator') and (e.get('op') == '=' or e.k == 'CompoundAssignOperator') and \
-                    strip(e.ch[0]).k == 'DeclRefExpr' and (decl_of(e.ch[0]) or {}).get('id') in ptr_ids:
-                return False
-            return st
-
-        def edge(st, blk, si):
-            if blk.cond is not None and len(blk.all_succs) == 2:
-                t, neg = is_test(blk.cond)
-                if t:
-                    true_edge = 1 if neg else 0
-                    return True if si == true_edge else st
-            return st
-        ins = C.forward_dataflow(P, False, transfer, lambda a, b: a and b, edge_transfer=edge)
-        for bid, st in ins.items():
-            if st is None:
-                continue
-            for e in P.blocks[bid].elems:
-                if e is target_elem or any(x is target_elem for x in e.walk()):
-                    return st
-                st = transfer(st, e)
-        return False
     decls = {x['id']: x for x in P.local_decls()}
     x = decls.get(d['id'])
     if x is not None and ('arrayLen' in x or x.get('vla') or (x.get('ct') or '').startswith('char [')):
-        # (a) local buffer
-        from engine.dataflow import PtrTaint
-        pt = PtrTaint(P, lambda n: False, {d['id']})
-        if any(True for cl, i, a in pt.pointer_args() if cl is not call and not _const_param(cl, i)):
-            return False, 'is a buffer also filled by another call'
-        stores = pt.stores()
-        if not stores:
-            return False, 'is a buffer nothing is stored into'
-        for st in stores:
-            if st.k != 'BinaryOperator' or st['op'] != '=':
-                return False, 'is modified by %s' % render(st)
-            r = strip(st.ch[1])
-            if r.get('v') == 0:
-                continue
-            ptrs = {n['ref']['id'] for n in r.walk() if n.k == 'DeclRefExpr' and n['ref']['kind'] in ('var', 'parm')
-                    and (n.get('ct') or '').rstrip().endswith('*')}
-            if r.k not in ('UnaryOperator', 'ArraySubscriptExpr') or not guarded(st, render(r).strip('() '), ptrs):
-                return False, 'receives %s, which has not just passed isdigit()' % render(r)
-        return True, 'a local buffer that only receives characters that passed isdigit(), and the terminator'
+        return _only_digit_stores(P, d['id'], call)
     # (b) a string variable: its first character passed isdigit()
     for text in ('*%s' % d['name'], '%s[0]' % d['name']):
-        if guarded(call, text, {d['id']}):
+        if _digit_guarded(P, call, text, {d['id']}):
             return True, 'first character passed isdigit()'
     return False, 'is the unchecked text %s' % render(src)
 
@@ -693,13 +711,47 @@ def _const_param(call, i):
     return i < len(pt) and _pointee_const(pt[i])
 
 
+def _null_iff_not_found(H, search):
+    """the helper H returns a null pointer on every path on which its search found nothing and a non-null one
+    (computed from the hit) on every path on which it found something"""
+    hv = common.holder(H, search)
+    if hv is None:
+        return False
+    isx = lambda n: n.k == 'DeclRefExpr' and (n.get('ref') or {}).get('id') == hv
+    tests = [(b, common.compare_edges(b, isx)) for b in common.blocks_testing(H, isx)]
+    tests = [(b, ce) for b, ce in tests if ce is not None and ce[0] == 0]
+    if len(tests) != 1:
+        return False
+    b, (_, eq, ne) = tests[0]
+    rets = {r.id: r for r in C.return_nodes(H)}
+
+    def returns_from(edge):
+        vis, _ = common.reach_from_edge(H, b, edge)
+        return [r for r in rets.values() if r.id in vis]
+    r0, r1 = returns_from(eq), returns_from(ne)
+    if not r0 or not r1 or {r.id for r in r0} & {r.id for r in r1} or len(r0) + len(r1) != len(rets):
+        return False
+    isnull = lambda r: r.ch and (strip(r.ch[0]).get('null') or strip(r.ch[0]).get('v') == 0)
+    return all(isnull(r) for r in r0) and all(
+        (not isnull(r)) and any(isx(x) for x in r.ch[0].walk()) for r in r1)
+
+
 def output_without_argument_rule(ctx, prog):
     chk = ctx.chk
     PV = prog.func('snoopy_configfile_parseValue_output')
     if PV is None:
         raise AnalysisBroken('snoopy_configfile_parseValue_output not found')
-    seps = [c for c in PV.calls() if c.get('callee') in ('strchr', 'strstr', 'strpbrk', 'index') and
-            any(strip(a).get('v') == 58 or (strip(a).k == 'StringLiteral' and strip(a).get('s') == ':') for a in c.ch[2:])]
+    def sep_searches(F):
+        return [c for c in F.calls() if c.get('callee') in ('strchr', 'strstr', 'strpbrk', 'index') and
+                any(strip(a).get('v') == 58 or (strip(a).k == 'StringLiteral' and strip(a).get('s') == ':') for a in c.ch[2:])]
+    seps = sep_searches(PV)
+    if not seps:
+        # the split may live in a file-local helper that reports "no separator" by returning NULL: its call is
+        # then the search as far as this function is concerned
+        for c in PV.calls():
+            H = prog.func(c.get('callee'), PV.tu) if c.get('callee') else None
+            if H is not None and H.internal and len(sep_searches(H)) == 1 and _null_iff_not_found(H, sep_searches(H)[0]):
+                seps.append(c)
     if len(seps) != 1:
         raise AnalysisBroken('the output option parser does not look for the ":" separator exactly once (%d searches)' % len(seps))
     sep = seps[0]
